@@ -153,6 +153,16 @@ Theorem rules_level_write_refutes_determinism :
   ex_ctx (i_run [1; 0; 0]%nat (i_init ex_rules (HApp 0) w_write_progs)) 0 = Some (mkICtx 0 false [0]).
 Proof. exact w_rules_write_interferes. Qed.
 
+(* a variable with static storage duration in a module is shared state too (Model/Concurrent.v, "What a scan may write"):
+   a console.log that formats into a static buffer hands scanner A the text of scanner B *)
+Theorem module_static_buffer_refutes_noninterference :
+  let g0 := i_init [(0, false)] (HApp 0) w_static_progs in
+  all_finished _ _ _ _ _ (i_run [0; 0; 0; 1; 1; 1; 0; 1]%nat g0) = true /\
+  ex_ctx (i_run [0; 0; 0; 1; 1; 1; 0; 1]%nat g0) 0 = Some (mkICtx 1111 false [0]) /\
+  ex_ctx (i_run (repeat 0%nat 4) g0) 0 = Some (mkICtx 1111 false [1]) /\
+  ex_ctx (i_run [0; 0; 0; 1; 1; 1; 0; 1]%nat g0) 1 = ex_ctx (i_run (repeat 1%nat 4) g0) 1.
+Proof. exact w_static_buffer_interferes. Qed.
+
 (* the self-test change "exception_handler_usecount++ outside the mutex" breaks handler_protocol in the model *)
 Theorem increment_outside_mutex_refutes_protocol :
   let g0 := i_init ex_rules (HApp 0) w_racy_progs in
